@@ -19,6 +19,7 @@ import (
 	"github.com/free5gc/go-upf/internal/verif/flowgen"
 	"github.com/free5gc/go-upf/internal/verif/fullstack"
 	"github.com/free5gc/go-upf/internal/verif/rxwindow"
+	"github.com/free5gc/go-upf/internal/verif/sessmodel"
 	"github.com/free5gc/go-upf/internal/verif/simkernel"
 	"github.com/free5gc/go-upf/internal/verif/stack"
 	"github.com/free5gc/go-upf/internal/verif/vcore"
@@ -667,7 +668,8 @@ func TestC07(t *testing.T) {
 	for _, f := range files {
 		var w struct {
 			Case
-			Window *rxwindow.Case `json:"window"`
+			Window  *rxwindow.Case  `json:"window"`
+			History *sessmodel.Case `json:"history"`
 		}
 		if err := vcore.LoadReplayCase(f, &w); err != nil {
 			t.Fatalf("replay %s: %v", f, err)
@@ -675,6 +677,11 @@ func TestC07(t *testing.T) {
 		vcore.E.Class("replayed")
 		if w.Window != nil {
 			runWindow(t, *w.Window)
+			continue
+		}
+		if w.History != nil {
+			vcore.E.Eval()
+			vcore.Report(t, sessmodel.Run(*w.History, sessmodel.Oracles{}).V, map[string]any{"history": w.History})
 			continue
 		}
 		c := w.Case
@@ -687,6 +694,28 @@ func TestC07(t *testing.T) {
 	}
 	net2 := stack.Net2FromEnv(107)
 	_ = net2
+	// valid messages in unusual orders: histories of the session-handling model (takeovers, unknown nodes and sessions, probes
+	// of every SEID class, reports and their answers, refused rules) with no oracle but "the UPF is still there and answers"
+	vcore.Check(t, vcore.N(400, 4000), func(rt *rapid.T) {
+		g := stack.DefaultGen()
+		g.MaxRules = 3
+		c := sessmodel.Case{Ops: sessmodel.Gen(rt, sessmodel.GenCfg{MaxOps: 25, Probes: true, SharedCP: true, Takeover: true, Negative: true, Reports: true, Rules: g}), Refuse: sessmodel.GenRefuse(rt)}
+		r := sessmodel.Run(c, sessmodel.Oracles{})
+		vcore.E.Eval()
+		vcore.E.Class("valid_message_history")
+		if r.Stats.Takeovers > 0 {
+			vcore.E.Class("valid_message_history:with_takeover")
+			vcore.E.NonTrivial(vcore.JSON(c))
+		}
+		if r.V != nil && !vcore.IsKnown(r.V.Key) {
+			key := r.V.Key
+			c.Ops = vcore.MinimizeSlice(c.Ops, func(ops []sessmodel.Op) bool {
+				x := sessmodel.Run(sessmodel.Case{Ops: ops, Refuse: c.Refuse}, sessmodel.Oracles{})
+				return x.V != nil && x.V.Key == key
+			}, 200)
+		}
+		vcore.Report(rt, r.V, map[string]any{"history": c})
+	})
 	// still serving after requests that were never answered: the same socket and sequence number must work again once the
 	// retention window has passed (package rxwindow, real timers)
 	vcore.Check(t, vcore.N(12, 80), func(rt *rapid.T) {
